@@ -273,7 +273,8 @@ def gadd(guard, atom, pol):
 
 
 class Evaluator:
-    def __init__(self, U, inline=(), max_depth=6, keep_tags=True, stop=()):
+    def __init__(self, U, inline=(), max_depth=6, keep_tags=True, stop=(), overrides=None):
+        self.overrides = dict(overrides or {})   # per type: {"Unit::from_symbol": path of the overriding impl method}
         self.U = U
         self.inline = set(inline)
         self.stop = set(stop)   # with inline={"*"}: default methods kept symbolic
@@ -369,6 +370,21 @@ class Evaluator:
                 if r is not True:
                     test = ("and", test, r)
             return test
+        if k == "or":
+            # alternatives without bindings (`"a" | "b"`, `A | B`): the disjunction of the tests
+            tests = []
+            for alt in pat["pats"]:
+                e2 = dict(env)
+                r = self.pat_test(alt, term, e2, body)
+                if e2 != env:
+                    raise Unsupported("or-pattern with bindings", body["span"])
+                if r is True:
+                    return True
+                tests.append(r)
+            t = tests[0]
+            for x in tests[1:]:
+                t = ("or", t, x)
+            return t
         if k == "const":
             if pat["ty"]["s"] == "bool" and "bits" in pat:
                 return term if int(pat["bits"]) == 1 else ("not", term)
@@ -472,8 +488,21 @@ class Evaluator:
             else:
                 yield from self.ev(e["expr"], cur, depth, body)
 
+    def is_debug_assert_guard(self, c):
+        """`if cfg!(debug_assertions) { .. }` produced by debug_assert!/debug_assert_eq!/debug_assert_ne!"""
+        while c["k"] == "block" and not c["stmts"] and c["expr"] is not None:
+            c = c["expr"]
+        return c["k"] == "lit" and any(str(m).startswith("debug_assert") for m in (c.get("expn_chain") or []))
+
     def ev_if(self, e, st, depth, body):
         c = e["cond"]
+        if self.is_debug_assert_guard(c) and e["else"] is None:
+            # Value-flow is decided for the semantics without debug assertions (they are compiled out in release
+            # builds and, where they hold, change nothing in debug builds).  That a debug assertion cannot fire is
+            # a totality question: its panic site is in C18's inventory and must be discharged there.
+            self.debug_asserts_skipped = getattr(self, "debug_asserts_skipped", 0) + 1
+            yield (st.guard, "val", ("unit",), st.env)
+            return
         for (g, test, env_t) in self.cond(c, st, depth, body):
             # test: boolean term; env_t: env with if-let bindings (then branch)
             gt = gadd(g, test, True)
@@ -1035,7 +1064,9 @@ class Evaluator:
         if tr in QT:
             short = QT[tr] + "::" + name
             if f.get("has_default") and (short in self.inline or ("*" in self.inline and short not in self.stop)):
-                if r is not None and r["path"] != path:
+                if short in self.overrides and self.overrides[short] in self.U.body:
+                    target = self.overrides[short]   # analysed for one concrete type that overrides this default
+                elif r is not None and r["path"] != path:
                     target = r["path"]       # an overriding impl: analyse the override
                 else:
                     target = path
